@@ -155,7 +155,8 @@ def drive(actors, res=None, timeout=60.0, use_time=True, max_virtual=4000.0):
                 if LM.deadlocks:
                     CV.wait(0.2)
                     return "deadlock"
-                if instr.MODE[0] == "vt" and instr.quiescent():
+                if instr.MODE[0] == "vt" and instr.quiescent() and not any(
+                        getattr(a, "external", False) and not a.finished for a in actors):
                     break
                 rem = end - _real_monotonic()
                 if rem <= 0:
